@@ -58,7 +58,7 @@ func (r *runner) generate() {
 	// ---------------- string operators: exhaustive small scope ----------------
 	alpha := "ab"
 	args := enumerate(alpha, 1, 3)
-	vals := enumerate(alpha, 0, cfg.Pick(4, 5))
+	vals := enumerate(alpha, 0, cfg.Pick(3, 5))
 	for _, op := range strOps {
 		for _, a := range args {
 			for _, v := range vals {
@@ -100,7 +100,7 @@ func (r *runner) generate() {
 	// ---------------- macro arguments ----------------
 	txv := [][2]string{{"x", hx("Vx")}, {"a", hx("")}, {"t", hx("b a")}, {"a.x", hx("\xff\x00")}, {"tx", hx("%{tx.x}")}}
 	mtexts := enumerate("%{}.txa", 0, cfg.Pick(3, 5))
-	for i := 0; i < cfg.Pick(500, 6000); i++ {
+	for i := 0; i < cfg.Pick(300, 6000); i++ {
 		mtexts = append(mtexts, randFrom(rng, "%{}.txa%{}.tx", 4+rng.Intn(5)))
 	}
 	mtexts = append(mtexts, "%{tx.x}", "pre%{tx.x}post", "%{tx.missing}", "%{TX.X}", "%{Tx.A.X}", "%{tx.a%{tx.x}",
@@ -161,7 +161,7 @@ func (r *runner) generate() {
 	r.genVbr(rng)
 
 	// ---------------- @validateUrlEncoding ----------------
-	for _, v := range enumerate("%4gA", 0, cfg.Pick(5, 7)) {
+	for _, v := range enumerate("%4gA", 0, cfg.Pick(4, 7)) {
 		r.runSimple("vue", "validateUrlEncoding", "", v)
 	}
 	for b := 0; b < 256; b++ {
@@ -169,7 +169,9 @@ func (r *runner) generate() {
 		r.runSimple("vue", "validateUrlEncoding", "", c)
 		r.runSimple("vue", "validateUrlEncoding", "", "%"+c+"0")
 		r.runSimple("vue", "validateUrlEncoding", "", "%0"+c)
-		r.runSimple("vue", "validateUrlEncoding", "", "a%"+c+c+"b")
+		if cfg.Thorough() || b%4 == 0 || isHex(byte(b)) {
+			r.runSimple("vue", "validateUrlEncoding", "", "a%"+c+c+"b")
+		}
 	}
 	// truncated %XX at every offset of a longer valid string
 	base := "ab%41cd%2fe%7E"
@@ -220,7 +222,7 @@ func (r *runner) genPm(rng *rand.Rand) {
 		}
 	}
 	mkPhrase := func(al string, n int) string { return randFrom(rng, al, n) }
-	for i := 0; i < cfg.Pick(1500, 60000); i++ {
+	for i := 0; i < cfg.Pick(1200, 60000); i++ {
 		al := pick(rng, []string{"abc", "abcABC", "ab", "abcxyzQ-_/.", "ab\xff\x80", "aAbB\xc3\xa9\x89"})
 		n := 1 + rng.Intn(5)
 		ps := make([]string, n)
@@ -234,6 +236,12 @@ func (r *runner) genPm(rng *rand.Rand) {
 			ps = append(ps, ps[0]+mkPhrase(al, 2)) // one phrase extends another
 		}
 		arg := strings.Join(ps, " ")
+		switch rng.Intn(8) {
+		case 0: // consecutive spaces: empty phrases are dropped
+			arg = strings.Join(ps, "  ")
+		case 1:
+			arg = " " + arg + "  "
+		}
 		minLen := 1 << 30
 		for _, p := range ps {
 			if len(p) < minLen {
@@ -282,6 +290,12 @@ func (r *runner) genPm(rng *rand.Rand) {
 		}
 		r.runPm(arg, v, rng.Intn(3) > 0)
 	}
+	// empty phrases only / no phrase at all
+	for _, a := range []string{"", " ", "   ", "a ", " a", "a  b", "foo  fob", "foo  Fob bar", "  ab   cd  "} {
+		for _, v := range []string{"", "hello", "a", "xfoby", "ab", "x cd", " ", "b"} {
+			r.runPm(a, v, len(v)%2 == 1)
+		}
+	}
 	// non-ASCII phrases: strings.ToLower re-encodes (oracle table for the runes)
 	for _, a := range []string{"\xc3\x89t\xc3\x89", "\xff", "a\xffb", "\xe2\x84\xaa", "\xc4\xb0x", "\xce\xa3\xce\xa3", "caf\xc3\xa9 TH\xc3\x89", "\xc3", "\xed\xa0\x80"} {
 		for _, v := range []string{a, strings.ToLower(a), strings.ToUpper(a), "x" + a + "y", "k", "K", "\xef\xbf\xbd", "i\xcc\x87x", "\xc3\xa9t\xc3\xa9", "caf\xc3\xa9", "th\xc3\xa9", ""} {
@@ -320,6 +334,10 @@ func (r *runner) genPm(rng *rand.Rand) {
 		if rng.Intn(3) == 0 {
 			v += ps[0]
 		}
+		if rng.Intn(4) == 0 { // empty entries are dropped
+			k := rng.Intn(len(ps) + 1)
+			ps = append(append(append([]string{}, ps[:k]...), ""), ps[k:]...)
+		}
 		r.runPmd(ps, v, rng.Intn(2) == 0)
 	}
 }
@@ -336,7 +354,7 @@ func (r *runner) genVbr(rng *rand.Rand) {
 	}
 	for _, a := range args {
 		for b := 0; b < 256; b++ {
-			if cfg.Thorough() || b < 2 || b > 253 || rng.Intn(6) == 0 || (b >= 9 && b <= 14) || (b >= 30 && b <= 34) || (b >= 63 && b <= 67) || (b >= 89 && b <= 101) || (b >= 120 && b <= 128) {
+			if cfg.Thorough() || b < 2 || b > 253 || rng.Intn(16) == 0 || (b >= 9 && b <= 14) || (b >= 30 && b <= 34) || (b >= 63 && b <= 67) || (b >= 89 && b <= 91) || (b >= 96 && b <= 101) || (b >= 125 && b <= 128) {
 				r.runSimple("vbr", "validateByteRange", a, string([]byte{byte(b)}))
 			}
 		}
@@ -368,17 +386,19 @@ func (r *runner) genUtf8(rng *rand.Rand) {
 	cfg := r.cfg
 	for b := 0; b < 256; b++ {
 		r.runSimple("vutf8", "validateUtf8Encoding", "", string([]byte{byte(b)}))
-		r.runSimple("vutf8", "validateUtf8Encoding", "", "a"+string([]byte{byte(b)})+"b")
+		if cfg.Thorough() || b >= 0x7e {
+			r.runSimple("vutf8", "validateUtf8Encoding", "", "a"+string([]byte{byte(b)})+"b")
+		}
 	}
 	bd := []byte{0x00, 0x7f, 0x80, 0x8f, 0x90, 0x9f, 0xa0, 0xbf, 0xc0, 0xc1, 0xc2, 0xdf, 0xe0, 0xe1, 0xec, 0xed, 0xee, 0xef, 0xf0, 0xf1, 0xf3, 0xf4, 0xf5, 0xff}
 	for _, b0 := range bd {
 		for _, b1 := range bd {
 			r.runSimple("vutf8", "validateUtf8Encoding", "", string([]byte{b0, b1}))
 			for _, b2 := range bd {
-				if cfg.Thorough() || ((b0 >= 0xe0 && b0 <= 0xf4) && rng.Intn(3) == 0) || rng.Intn(25) == 0 {
+				if cfg.Thorough() || ((b0 >= 0xe0 && b0 <= 0xf4) && rng.Intn(6) == 0) || rng.Intn(60) == 0 {
 					r.runSimple("vutf8", "validateUtf8Encoding", "", string([]byte{b0, b1, b2}))
 				}
-				if b0 >= 0xf0 && (cfg.Thorough() || rng.Intn(5) == 0) {
+				if b0 >= 0xf0 && (cfg.Thorough() || rng.Intn(20) == 0) {
 					for _, b3 := range []byte{0x7f, 0x80, 0xbf, 0xc0} {
 						r.runSimple("vutf8", "validateUtf8Encoding", "", string([]byte{b0, b1, b2, b3}))
 					}
@@ -540,4 +560,8 @@ func (r *runner) genRules(rng *rand.Rand) {
 		r.runRule(text, txv, v, rng.Intn(4) > 0, "")
 	}
 	_ = fmt.Sprint
+}
+
+func isHex(c byte) bool {
+	return (c >= '0' && c <= '9') || (c >= 'a' && c <= 'f') || (c >= 'A' && c <= 'F')
 }
